@@ -55,6 +55,14 @@ CHECKS = {
    text='The naming loop of reset_variables is a TLA+ machine (MC_Relabel): TLC checks bijection, first-free-candidate choice, agreement with the functional plan, the pigeonhole progress measure and termination for every format with an index field; recorded reset_variables executions on corpus and random trees x formats are judged by TLC: the observed map is a bijection, applied at every definition and (aligned) reference and nowhere else, and interpretation commutes with renaming.',
    note='F15 (formats without index field never return when two nodes format alike) is an open known finding, detected by a 1-2 s timeout and the specification predicate; exact prefix rule is drift',
    technique='TLA+ machine of the naming loop model-checked by TLC + TLC trace validation'),
+ 'C13': dict(engine='model', design='5 C13, 4.4',
+   text='TLC checks the role algebra (colon, inversions removed in pairs, normalisation last, defined roles never inverted, involution and flip on inversion-canonical roles, triple laws, idempotence exactly for closed normalisation tables) on every model table over a small role universe x every role base x k inversions (MC_Model); the (table, role) pairs exported by TLC and roles of the default, AMR, no-op, MiniAMR and custom models are run through the real Model methods and canonicalize_roles, and TLC judges every recorded value against the specification functions and the laws.',
+   note='O1 roles (undefined role whose inversion the model defines) are outside the algebra; F16 is an open known finding with the specification predicate ~ClosedTable as its signature; regex role patterns other than prefix+digits are not modelled',
+   technique='TLA+ role algebra model-checked by TLC over all small model tables + TLC trace validation of recorded Model method results'),
+ 'C15': dict(engine='graph', design='5 C15, 4.8',
+   text='The Graph object is a TLA+ history machine (Graph.tla: Apply): TLC checks partition, edge/attribute split, filters, implicit top, the re-entrancy formula as invariants and top refusal, operands-untouched and the set-algebra clauses as action properties over every pool of two small graphs and every history of two calls (MC_Graph); histories generated by TLC in simulation mode (deeper, larger graphs) are replayed on real Graph objects, and the trace specification J_Graph re-applies the same actions step by step and compares every object and every query after every call.',
+   note='markers of triples common to both operands and multiplicity of duplicates from the right operand are drift (O6)',
+   technique='TLA+ history machine model-checked by TLC + spec-to-code replay of TLC-simulated histories, validated step by step by a TLC trace specification'),
 }
 NOT_YET = 'check not built yet (build in progress, see DESIGN.md section 11)'
 
